@@ -25,7 +25,7 @@ RULE = ("case = module in {LinSolve, Inverse, SystemOfEquations, StaticCondensat
         "partitioned modules non-empty free and prescribed/main sets. Distinct = sha1 of the canonical case JSON.")
 ASSUMPTIONS = [
     "complex right-hand side with a real *sparse* matrix is documented as unsupported (LinSolve raises TypeError): "
-    "generated in part of the cases with the oracle 'TypeError(... not supported ...) or a correct solution'",
+    "generated in part of the cases with the oracle 'TypeError / NotImplementedError or a correct solution'",
     "matrices are non-singular with bounded condition number by construction (<= ~1e3; the free block A_ff of the "
     "partitioned modules is checked: cases with cond(A_ff) > 1e6 are labelled inconclusive_cond and not judged)",
     "solver overrides are only combined with matrix classes the solver documents (Cholesky: Hermitian; LDL: Hermitian "
@@ -665,7 +665,7 @@ def check_case(case):
         return labels, V
     snaps = [_snap(s) for s in st1]
     exc, out1 = run(mod, sigs)
-    if try_refused and isinstance(exc, TypeError) and "not supported" in str(exc):
+    if try_refused and isinstance(exc, (TypeError, NotImplementedError)):
         labels.append("documented_refusal")
         return labels, V
     if exc is not None:
